@@ -650,6 +650,9 @@ SELF_EXAMPLES = [
 
 
 SELF_EXAMPLES_P = [
+    ('reslice-indices', 'class A(object):\n  def _window(self, first, last, stride=1):\n    return self._m[slice(first, last, stride)]\n'
+                        '  def __getitem__(self, i):\n    return self._window(*i.indices(len(self)))\n', 'A.__getitem__', BAD),
+    ('reslice-indices', 'class A(object):\n  def __getitem__(self, i):\n    return [self._m[k] for k in range(*i.indices(len(self)))]\n', 'A.__getitem__', None),
     ('unforwarded-parameter', 'def g(seq, instrument=None):\n  return [n for n in seq if instrument is None or n.i == instrument]\n'
                               'class A(object):\n  def __init__(self, seq, instrument=0):\n    self.x = g(seq)\n', 'A.__init__', BAD),
     ('unforwarded-parameter', 'def g(seq, instrument=None):\n  return [n for n in seq if instrument is None or n.i == instrument]\n'
@@ -760,6 +763,58 @@ def unforwarded_parameters(fi, P):
         out.append(Site('unforwarded-parameter', c, UNKNOWN, 'cannot classify: %s (the call is guarded by %s)' % (why, norm_text(guarded[0]))))
       else:
         out.append(Site('unforwarded-parameter', c, BAD, why))
+  return out
+
+
+def resliced_indices(fi, P):
+  """slice.indices(n) resolves a slice against a length, for use with range().  Its result is not a slice to apply again: for a
+  negative step an open (or far-left) stop comes back as -1, and -1 as the stop of a *slice* means "up to the last element", so
+  `x[::-1]` re-sliced through indices() is empty.  BAD when the resolved stop becomes the stop of a slice with the resolved step and
+  nothing restricts the step to positive values."""
+  out = []
+  fn = fi.node
+
+  def slice_uses(node, stop_name, step_name):
+    hits = []
+    for x in ast.walk(node):
+      if isinstance(x, ast.Call) and dotted(x.func) == 'slice' and len(x.args) == 3 and norm_text(x.args[1]) == stop_name and norm_text(x.args[2]) == step_name:
+        hits.append(x)
+      if isinstance(x, ast.Slice) and x.upper is not None and x.step is not None and norm_text(x.upper) == stop_name and norm_text(x.step) == step_name:
+        hits.append(x)
+    return hits
+  for c in ast.walk(fn):
+    if not isinstance(c, ast.Call):
+      continue
+    star = [(k, a) for k, a in enumerate(c.args) if isinstance(a, ast.Starred) and isinstance(a.value, ast.Call) and isinstance(a.value.func, ast.Attribute) and a.value.func.attr == 'indices']
+    if not star:
+      continue
+    k, a = star[0]
+    if dotted(c.func) == 'slice' and k == 0:
+      out.append(Site('reslice-indices', c, BAD, '%s builds a slice from slice.indices(): for a negative step the resolved stop -1 means "the last element" when used as a slice bound, so a reversed '
+                      'slice that runs to the left end comes back empty' % norm_text(c)[:60]))
+      continue
+    g, skip = resolve_callee(fi, c, P)
+    if g is None:
+      continue
+    order = _param_table(g.node)[0]
+    if len(order) < skip + k + 3:
+      continue
+    stop_p, step_p = order[skip + k + 1], order[skip + k + 2]
+    hits = slice_uses(g.node, stop_p, step_p)
+    guarded = [t for h in hits for t, _p in guards_at(g.node, h) if any(isinstance(n, ast.Name) and n.id == step_p for n in ast.walk(t))]
+    if hits and not guarded:
+      out.append(Site('reslice-indices', c, BAD, '%s hands the result of slice.indices() to %s, which slices again with it (%s): for a negative step the resolved stop -1 means "the last element" '
+                      'as a slice bound, so [::-1] and every reversed slice that reaches the left end comes back empty instead of reversed' % (norm_text(c)[:60], g.qualname, norm_text(hits[0])[:40])))
+    elif hits:
+      out.append(Site('reslice-indices', c, UNKNOWN, 'cannot classify: %s re-slices with the result of slice.indices() under a condition on the step' % g.qualname))
+  for st in U.walk_stmts(fn):
+    if isinstance(st, ast.Assign) and len(st.targets) == 1 and isinstance(st.targets[0], ast.Tuple) and len(st.targets[0].elts) == 3 and isinstance(st.value, ast.Call) and \
+        isinstance(st.value.func, ast.Attribute) and st.value.func.attr == 'indices' and all(isinstance(e, ast.Name) for e in st.targets[0].elts):
+      _a, b, cstep = [e.id for e in st.targets[0].elts]
+      hits = slice_uses(fn, b, cstep)
+      guarded = [t for h in hits for t, _p in guards_at(fn, h) if any(isinstance(n, ast.Name) and n.id == cstep for n in ast.walk(t))]
+      if hits and not guarded:
+        out.append(Site('reslice-indices', hits[0], BAD, '%s slices with the stop and step resolved by slice.indices(): for a negative step the stop -1 means "the last element" as a slice bound' % norm_text(hits[0])[:50]))
   return out
 
 
@@ -1053,7 +1108,7 @@ def self_check():
   return n
 
 
-DETECT_P = {'unforwarded-parameter': unforwarded_parameters, 'dead-parameter': dead_parameters}      # detectors that resolve callees through the program
+DETECT_P = {'unforwarded-parameter': unforwarded_parameters, 'dead-parameter': dead_parameters, 'reslice-indices': resliced_indices}      # detectors that resolve callees through the program
 
 
 def apply(ctx, rule_prefix, funcs, kinds, why_matters):
